@@ -154,6 +154,7 @@ type state struct {
 	fail    map[int]bool
 	async   map[int]bool
 	free    bool
+	plain   bool
 	callIdx int
 }
 
@@ -189,6 +190,16 @@ func Call(pid int, args ...uint32) (uint32, error) {
 	}
 	if s.free {
 		return freeCall(s, pid, base, args)
+	}
+	if s.plain {
+		failed := s.fail[pid]
+		s.mu.Lock()
+		s.events = append(s.events, Event{K: "enter", P: pid, Args: append([]uint32{}, args...)}, Event{K: "exit", P: pid, Err: failed})
+		s.mu.Unlock()
+		if failed {
+			return base, &ProvErr{pid}
+		}
+		return base, nil
 	}
 	s.mu.Lock()
 	s.events = append(s.events, Event{K: "enter", P: pid, Args: append([]uint32{}, args...)})
@@ -662,6 +673,33 @@ func runFree(t *testing.T, a *Adapter, p *Plan, rep int) (ex *Exec) {
 	return ex
 }
 
+// runPlain executes the injector directly (sequential code: no schedule to own).
+func runPlain(t *testing.T, a *Adapter, p *Plan, rep int) (ex *Exec) {
+	ex = &Exec{Inj: p.Inj, Plan: p.ID, Rep: rep, HasErr: a.HasErr, ErrProv: -1}
+	st := &state{plan: p, fail: map[int]bool{}, plain: true}
+	for _, f := range p.Fail {
+		st.fail[f] = true
+	}
+	setCurrent(st)
+	defer setCurrent(nil)
+	func() {
+		defer func() {
+			if r := recover(); r != nil {
+				ex.Panic = fmt.Sprint(r)
+			}
+		}()
+		ctx := context.WithValue(context.Background(), ctxKey{}, p.Args["ctx"])
+		res, err := a.Call(ctx, p.Args)
+		ex.Returned = true
+		ex.Result = res
+		classifyErr(ex, err)
+	}()
+	st.mu.Lock()
+	ex.Events = st.events
+	st.mu.Unlock()
+	return ex
+}
+
 // ---------------------------------------------------------------- entry point
 
 // RunAll executes the plans in $VRT_PLANS starting at $VRT_START and appends one JSON
@@ -704,6 +742,8 @@ func RunAll(t *testing.T) {
 			var ex *Exec
 			if p.Mode == "free" {
 				ex = runFree(t, a, p, r)
+			} else if p.Mode == "plain" {
+				ex = runPlain(t, a, p, r)
 			} else {
 				ex = runCtl(t, a, p, r)
 			}
